@@ -10,10 +10,11 @@ Own per-atom electron bookkeeping: for every labelled atom the change of
 """
 from rdkit import Chem
 
-ORD = {'single': 1, 'double': 2, 'triple': 3}
+ORD = {'single': 1, 'double': 2, 'triple': 3, 'aromatic': 1.5}
+OPEN_KINDS = ('any', 'nonring', 'ring', 'strong')     # pattern bonds of unknown order
 BT = {1: Chem.BondType.SINGLE, 2: Chem.BondType.DOUBLE, 3: Chem.BondType.TRIPLE,
-      4: Chem.BondType.QUADRUPLE}
-ORDER_OF = {'SINGLE': 1, 'DOUBLE': 2, 'TRIPLE': 3, 'QUADRUPLE': 4}
+      4: Chem.BondType.QUADRUPLE, 5: Chem.BondType.QUINTUPLE, 1.5: Chem.BondType.AROMATIC}
+ORDER_OF = {'SINGLE': 1, 'DOUBLE': 2, 'TRIPLE': 3, 'QUADRUPLE': 4, 'AROMATIC': 1.5}
 
 
 def pattern_tables(atoms):
@@ -42,6 +43,7 @@ def analyse(atoms, seq):
     dbo = [0] * n        # change of bond-order sum
     drad = [0] * n
     status = 'judged'
+    touched_open = set()
     for e in seq:
         k = e[0]
         if k == 'radinc':
@@ -62,6 +64,8 @@ def analyse(atoms, seq):
             rad[e[1]] = e[2]
         else:
             i, j = min(e[1], e[2]), max(e[1], e[2])
+            if (i, j) in touched_open:
+                return 'open', None
             if k == 'form':
                 if (i, j) in cur:
                     return 'open', None
@@ -86,20 +90,23 @@ def analyse(atoms, seq):
                 del cur[(i, j)]
                 dbo[i] -= o
                 dbo[j] -= o
-            elif k == 'inc':
-                if cur.get((i, j)) is None or cur[(i, j)] >= 3:
+            elif k in ('inc', 'dec'):
+                if (i, j) not in cur or (i, j) in touched_open:
                     return 'open', None
-                cur[(i, j)] += 1
-                dbo[i] += 1
-                dbo[j] += 1
-            elif k == 'dec':
-                if cur.get((i, j)) is None:
+                step = 1 if k == 'inc' else -1
+                if cur[(i, j)] is None:
+                    # a pattern bond of unspecified order ('any bond', 'nonring
+                    # bond' ...): the order changes by one whatever it is; the
+                    # pair is not judged any further in this sequence
+                    touched_open.add((i, j))
+                elif cur[(i, j)] == 1.5 or (k == 'inc' and cur[(i, j)] >= 3):
                     return 'open', None
-                cur[(i, j)] -= 1
-                if cur[(i, j)] == 0:
-                    del cur[(i, j)]
-                dbo[i] -= 1
-                dbo[j] -= 1
+                else:
+                    cur[(i, j)] += step
+                    if cur[(i, j)] == 0:
+                        del cur[(i, j)]
+                dbo[i] += step
+                dbo[j] += step
             elif k == 'modify':
                 if (i, j) not in cur:
                     return 'open', None
@@ -114,7 +121,7 @@ def analyse(atoms, seq):
                 cur[(i, j)] = new
                 dbo[i] += new - old
                 dbo[j] += new - old
-    balanced = all(dbo[a] + drad[a] == 0 for a in range(n))
+    balanced = all(abs(dbo[a] + drad[a]) < 1e-9 for a in range(n))
     return status, balanced
 
 
